@@ -28,9 +28,11 @@
 //!   MODEL is `Adv.begin old` for the state `old` left behind by sequence A (cut at a random point
 //!   or run to its end), then sequence B.  Equality is exactly what `monotone_begin_fresh` proves;
 //!   here it is observed on the executable model against the real code.
-//! * `qb_reuse`      — see `Drive/C08.lean`: the event-queue builder model re-used across
-//!   `set_path` calls; IMPL prints the per-vertex source lists of the real fill of the SECOND path
-//!   by a fresh tessellator, MODEL the queue of the re-used builder model (simple polygons only).
+//! * `chk_interp`    — `FillVertex::interpolated_attributes` on a REUSED tessellator (its attribute
+//!   buffer holds the leftovers of a call with another attribute count): for every vertex of a real
+//!   fill the harness records the source list and the attributes lyon computed; the Lean model
+//!   (`Reset.interpAll`, started from a buffer full of junk) must reproduce them bit for bit
+//!   (checker family: the model's verdict is a second oracle).
 
 use lyon_path::math::{point, vector, Angle, Box2D, Point};
 use lyon_path::traits::{Build, PathBuilder};
@@ -802,6 +804,14 @@ fn history_case<K: Kind>(ctx: &mut Ctx, family: &str, gen_call: fn(&mut Rng) -> 
         let junk = junk_bufs(rng);
         let mut args = Out::new();
         args.u(n as u64).t(&format!("{:?}", mode));
+        // digest of the whole history (so that distinct histories are distinct CASE lines) + its last call
+        let mut h: u64 = 0xcbf29ce484222325;
+        for c in &calls {
+            for b in K::describe(c).bytes() {
+                h = (h ^ b as u64).wrapping_mul(0x100000001b3);
+            }
+        }
+        args.t(&format!("h{:016x}", h)).t(&K::describe(&calls[n - 1]).replace(' ', "_"));
         // distribution tag: entry/fault mix of the LAST two calls + length + buffer mode
         let tag = format!("{} n={} {:?} {} <- {}", K::NAME, n, mode, tag_of(&calls[n - 1]), tag_of(&calls[n - 2]));
         (args, tag, move || {
@@ -922,13 +932,101 @@ fn mono_reuse_case(ctx: &mut Ctx) {
     });
 }
 
+// ---------------------------------------------------------------------------------------------
+// Tie (checker family): interpolated_attributes, model vs implementation, on a reused tessellator
+
+struct AttrRec {
+    verts: Vec<(Vec<VertexSource>, Vec<f32>)>,
+}
+impl GeometryBuilder for AttrRec {
+    fn add_triangle(&mut self, _: VertexId, _: VertexId, _: VertexId) {}
+}
+impl FillGeometryBuilder for AttrRec {
+    fn add_fill_vertex(&mut self, mut v: FillVertex) -> Result<VertexId, GeometryBuilderError> {
+        let src: Vec<VertexSource> = v.sources().collect();
+        let at = v.interpolated_attributes().to_vec();
+        self.verts.push((src, at));
+        Ok(VertexId(self.verts.len() as u32 - 1))
+    }
+}
+
+fn interp_case(ctx: &mut Ctx) {
+    ctx.case_check("chk_interp", |rng| {
+        let nattr = rng.range(1, 3) as usize;
+        let spec = PathSpec::gen(rng, nattr, true);
+        let prev = FillCall::gen(rng);
+        let rule = if rng.chance(1, 2) { FillRule::EvenOdd } else { FillRule::NonZero };
+        let tol = *rng.pick(&[0.01f32, 0.1, 1.0]);
+        let mut args = Out::new();
+        args.u(nattr as u64).t(&spec.describe());
+        let tag = format!("chk_interp a{} {} after {}", nattr, spec.kind, FILL_ENTRIES[prev.entry]);
+        (args, tag, move || {
+            let mut tess = FillTessellator::new();
+            // leave something in the tessellator (attrib_buffer of another length, pool, queue)
+            let mut scratch: Bufs = VertexBuffers::new();
+            let _ = run_fill(&mut tess, &prev, &mut scratch);
+            let path = spec.to_path();
+            let opts = FillOptions::DEFAULT.with_tolerance(tol).with_fill_rule(rule);
+            let mut rec = AttrRec { verts: Vec::new() };
+            let r = tess.tessellate_with_ids(path.id_iter(), &path, Some(&path), &opts, &mut rec);
+            let mut o = Out::new();
+            o.t(if r.is_ok() { "ok" } else { "err" }).u(rec.verts.len() as u64);
+            let mut chk = Out::new();
+            // the attribute store as the tessellator sees it: endpoint id -> attributes
+            let mut ids: Vec<lyon_path::EndpointId> = Vec::new();
+            for e in path.id_iter() {
+                match e {
+                    lyon_path::IdEvent::Begin { at } => ids.push(at),
+                    lyon_path::IdEvent::Line { to, .. } | lyon_path::IdEvent::Quadratic { to, .. } | lyon_path::IdEvent::Cubic { to, .. } => ids.push(to),
+                    lyon_path::IdEvent::End { .. } => {}
+                }
+            }
+            chk.u(nattr as u64).u(ids.len() as u64);
+            for id in &ids {
+                chk.u(id.0 as u64);
+                for x in path.attributes(*id) {
+                    chk.f(*x);
+                }
+            }
+            chk.u(rec.verts.len() as u64);
+            let mut multi = 0;
+            for (src, at) in &rec.verts {
+                chk.u(src.len() as u64);
+                if src.len() > 1 {
+                    multi += 1;
+                }
+                for s in src {
+                    match s {
+                        VertexSource::Endpoint { id } => {
+                            chk.t("e").u(id.0 as u64);
+                        }
+                        VertexSource::Edge { from, to, t } => {
+                            chk.t("g").u(from.0 as u64).u(to.0 as u64).f(*t);
+                        }
+                    }
+                }
+                chk.u(at.len() as u64);
+                for x in at {
+                    chk.f(*x);
+                }
+            }
+            o.t("multi").u(multi);
+            (CaseOut { imp: o, orcl: Oracle::new().verdict }, Some(chk))
+        })
+    });
+}
+
 fn main() {
     let mut ctx = Ctx::from_args("C08");
-    let n_hist_fill = ctx.n(1400, 70_000);
-    let n_hist_stroke = ctx.n(600, 30_000);
-    let n_mono = ctx.n(1500, 40_000);
+    let n_hist_fill = ctx.n(12_000, 400_000);
+    let n_hist_stroke = ctx.n(6000, 200_000);
+    let n_mono = ctx.n(2000, 60_000);
+    let n_interp = ctx.n(1500, 40_000);
     for _ in 0..n_mono {
         mono_reuse_case(&mut ctx);
+    }
+    for _ in 0..n_interp {
+        interp_case(&mut ctx);
     }
     for _ in 0..n_hist_fill {
         history_case::<FillK>(&mut ctx, "hist_fill", FillCall::gen, FillCall::tag);
